@@ -86,9 +86,19 @@ def depmodel(x, f):
     return out
 
 
+_mk_n = [0]
+
+
 def mk(flags, cached):
+    """the analysis object for a flag combination -- the flags are passed by keyword, fully
+    positionally, or half and half (every third construction each)"""
     subs, looks, calls, cses, comp = flags
     cls = CachedDependencyMapper if cached else DependencyMapper
+    _mk_n[0] += 1
+    if _mk_n[0] % 3 == 0:
+        return cls(subs, looks, calls, cses, comp)
+    if _mk_n[0] % 3 == 1:
+        return cls(subs, looks, include_calls=calls, include_cses=cses, composite_leaves=comp)
     return cls(include_subscripts=subs, include_lookups=looks, include_calls=calls,
                include_cses=cses, composite_leaves=comp)
 
